@@ -42,7 +42,7 @@ TIERS = {
         exhaustive=[dict(min_n=1, max_n=3, max_groups=1, max_reps=2,
                          timing=True)],
         sampled=[(3, 700), (4, 1100), (5, 700)],
-        abstract_cap=1200, programs=8, stub_times=[1, 2, 3, 5],
+        abstract_cap=1200, programs=8, stub_programs=[0, 1, 3, 4],
         runmany=3, shards=5,
         enum_cfg='MCConcertinaEnum.cfg',
         enum_args=dict(min_n=1, max_n=3, min_reps=1, max_reps=2, max_groups=1,
@@ -55,7 +55,7 @@ TIERS = {
                     dict(min_n=4, max_n=4, max_groups=1, max_reps=2,
                          timing=False)],
         sampled=[(3, 2000), (4, 8000), (5, 6000)],
-        abstract_cap=12000, programs=70, stub_times=[1, 2, 3, 4, 5, 7, 9],
+        abstract_cap=12000, programs=70, stub_programs=[0, 1, 2, 3, 4, 5],
         runmany=30, shards=14,
         enum_cfg='MCConcertinaEnum_thorough.cfg',
         enum_args=dict(min_n=1, max_n=3, min_reps=1, max_reps=2, max_groups=2,
@@ -67,7 +67,7 @@ if os.environ.get('C14_DEV'):
       exhaustive=[dict(min_n=1, max_n=3, max_groups=1, max_reps=2,
                        timing=True)],
       sampled=[(4, 150), (5, 100)], abstract_cap=600, programs=4,
-      stub_times=[1, 3], runmany=2, shards=3,
+      stub_programs=[0, 4], runmany=2, shards=3,
       enum_cfg='MCConcertinaEnum.cfg',
       enum_args=TIERS['quick']['enum_args'])
 
@@ -75,7 +75,13 @@ REQUIRED_FEATURES = [
     'groups=0', 'groups=1', 'groups=2', 'mode=halves', 'mode=diamond',
     'signal', 'no-signal', 'raised', 'never-raised', 'reps=1', 'reps=2',
     'reps=3', 'group-with-external-input', 'group-internal-edge',
-    'group-feeds-outside', 'lower-half-external', 'n=4', 'n=5', 'len=4']
+    'group-feeds-outside', 'lower-half-external', 'n=4', 'n=5', 'len=4',
+    'signal-file-empty-then-nonempty-round=1',
+    'signal-file-empty-then-nonempty-round=2',
+    'signal-file-empty-then-nonempty-round=3',
+    'signal-file-empty-never-raised', 'signal-file-nonempty-at-first-write',
+    'signal-file-appears-nonempty-round=1',
+    'signal-file-appears-nonempty-round=2']
 
 
 # ---------------------------------------------------------------------------
@@ -136,12 +142,23 @@ def HandConfigs(tier):
         seen[k] = c
         got += 1
   cfgs = list(seen.values())
+  # environment variant that the specifications do not see (an empty signal
+  # file is no signal): in every second configuration with a stop signal the
+  # engine writes the file EMPTY in the member calls before it raises it
+  k = 0
+  for c in cfgs:
+    for g in c['iters']:
+      if g['sig']:
+        k += 1
+        g['pre'] = k % 2
+      else:
+        g['pre'] = 0
   return [('h%06d' % i, c) for i, c in enumerate(cfgs)], exhaustive
 
 
 def StripTiming(c):
   return {'n': c['n'], 'req': c['req'],
-          'iters': [dict(g, raiseAt=0) for g in c['iters']]}
+          'iters': [dict(g, raiseAt=0, pre=0) for g in c['iters']]}
 
 
 # ---------------------------------------------------------------------------
@@ -256,6 +273,25 @@ def MakeProbes(hand_lines):
   return probes
 
 
+def ChainAdversarial(prog_lines, cases):
+  """Multi-predicate requests over a grounded chain in which a requested
+  predicate is an intermediate of another requested one AND the names of its
+  ancestors sort against the dependency order."""
+  adv = {c['id']: (c['meta']['chain'], set(c['meta']['adversarial']))
+         for c in cases if 'chain' in c['meta']}
+  n = 0
+  for l in prog_lines:
+    cid = l['_']['case']
+    sub = l['_']['subset']
+    if cid in adv and len(sub) > 1:
+      chain, bad = adv[cid]
+      for p in sub:
+        if p in bad and any(chain.index(q) > chain.index(p) for q in sub):
+          n += 1
+          break
+  return n
+
+
 def Signature(source, v):
   return {'source': source, 'clause': v.get('clause'), 'shape': v.get('shape')}
 
@@ -329,19 +365,27 @@ def Run(tier):
                              data=(True if k % 3 == 1 else None))
            for k in range(t['programs'])]
   cases.append(c14run.ThreeRequestsCase())
+  chain_cases = c14run.ChainCases(full=(tier == 'thorough'))
+  cases += chain_cases
   case_by_id = {c['id']: c for c in cases}
-  plain_cases = [c for c in cases if not c['meta']['data']]
+  plain_cases = [c for c in cases if not c['meta']['data'] and
+                 'chain' not in c['meta']]
   stub_cases = []
   for k, text in enumerate(c14run.StubPrograms()):
-    for ra in t['stub_times']:
-      stub_cases.append({'id': 's%02d/t%d' % (k, ra), 'text': text,
-                         'pred': 'Q', 'raise_at': ra})
+    if k in t['stub_programs']:
+      for rnd in (1, 2, 3, 4):
+        for pre in (0, 1):
+          stub_cases.append({'id': 's%02d/round%d/pre%d' % (k, rnd, pre),
+                             'text': text, 'pred': 'Q', 'round': rnd,
+                             'pre': pre})
   # one pool: single requests, real Run/RunMany, stub runs; then the
   # multi-predicate requests (they carry the single-request tables)
   tasks = [{'kind': 'subset', 'case': c, 'sub': sub}
            for c in cases for sub in c['subsets'] if len(sub) == 1]
   tasks += [{'kind': 'runmany', 'case': c}
             for c in plain_cases[:t['runmany']]]
+  tasks += [{'kind': 'runmany', 'case': c}
+            for c in [x for x in chain_cases if x['meta']['adversarial']][:3]]
   tasks += [{'kind': 'stub', 'case': c} for c in stub_cases]
   # the hand-made configurations share the pool (compiled tasks first: they
   # are the long ones)
@@ -528,9 +572,27 @@ def Run(tier):
           'stub_runs': len(stub_lines),
           'stub_signal_raised': sum(1 for l in stub_lines
                                     if any(e[0] == 'raise' for e in l['ev'])),
+          'chain_requests': sum(1 for l in prog_lines
+                                if l['_']['case'].startswith('chain-') and
+                                len(l['_']['subset']) > 1),
+          'chain_adversarial_requests': ChainAdversarial(prog_lines, cases),
           'compiled_lower_half_external': sum(
               1 for l in prog_lines + stub_lines
               if l['cfg']['n'] and c14cfg.LowerHalfExternal(l['cfg']))}
+  for rnd in (1, 2, 3, 4):
+    for pre in (0, 1):
+      key = 'stub_%s_round_%d' % ('empty_then_nonempty' if pre else
+                                  'appears_nonempty', rnd)
+      comp[key] = sum(1 for l in stub_lines
+                      if l['_'].get('round') == rnd and
+                      l['_'].get('pre') == pre and l['_'].get('raised'))
+      if not comp[key]:
+        machinery.append('compiled part vacuous: %s = 0' % key)
+  comp['stub_without_signal'] = sum(1 for l in stub_lines
+                                    if not l['_'].get('writers'))
+  for k in ('chain_requests', 'chain_adversarial_requests'):
+    if not comp[k]:
+      machinery.append('compiled part vacuous: %s = 0' % k)
   for k in ('multi_requests', 'tables_compared', 'with_iteration',
             'with_two_iterations', 'rename_path', 'requests_of_3_or_more',
             'accumulated_renames', 'accumulated_renames_generated',
@@ -660,7 +722,8 @@ def Replay(path):
   elif meta.get('origin') == 'stub':
     lines = [c14run.RunStubCase({'id': line['id'], 'text': meta['text'],
                                  'pred': meta['pred'],
-                                 'raise_at': meta['raise_at']})]
+                                 'round': meta['round'],
+                                 'pre': meta['pre']})]
   elif meta.get('origin') == 'runmany':
     r = c14run.RunManyCase({'id': line['id'].split('/')[0],
                             'text': meta['text'], 'finals': meta['finals']})
